@@ -21,6 +21,10 @@
      owns it is dropped: exhaustion, exception, abandonment) is closed by
      CPython's reference counting: `drop_iter`.  Not a fault point.
 
+   Descriptors and files are numbered from 0 upwards; number 0 is a
+   legitimate descriptor (it is what mkstemp returns to a process without a
+   stdin).  "Already closed" is None in `wfds`, never the number 0.
+
    A spill that fails after the file was registered leaves the stash in a
    half-written state (entries already written are None, the count is not
    reset); the sorter is then `tainted` and only close() is modelled on it
